@@ -79,6 +79,12 @@ def run_case(data):
         elif any(f.length > 16384 for f in o.frames):
             w.violate('frame-exceeds-max-frame-size:frame-filling-block', '')
 
+    lib_hi = {0: 0, 1: 0}     # highest id of each parity that any successful call or accepted frame has used
+
+    def note_used(sid_):
+        if isinstance(sid_, int) and 0 < sid_ <= TOP:
+            lib_hi[sid_ % 2] = max(lib_hi[sid_ % 2], sid_)
+
     def pick_sid():
         known = sorted(m.streams)
         k = ch.weighted([(8, 'known'), (6, 'forgotten'), (3, 'idle-local'), (2, 'idle-peer'), (1, 'top'), (1, 'big')])
@@ -115,10 +121,15 @@ def run_case(data):
         if expect_class is not None and isinstance(e, h2.exceptions.H2Error) and sid not in unknown and \
                 not m.closed and sid <= TOP:
             ok_classes = expect_class
-            if not isinstance(e, ok_classes) and not connection_alive():
+            right = isinstance(e, ok_classes)
+            if ok_classes == (h2.exceptions.NoSuchStreamError,) and isinstance(e, h2.exceptions.StreamClosedError):
+                right = False       # (StreamClosedError derives from NoSuchStreamError: a never-used id is not "closed")
+            if right:
+                pass
+            elif not isinstance(e, ok_classes) and not connection_alive():
                 # the connection was closed by an earlier refused call (K03) or an error: any ProtocolError
                 m.closed = 'unknown'
-            elif not isinstance(e, ok_classes):
+            else:
                 w.violate('wrong-exception-class:%s:%s:want=%s' % (name, type(e).__name__, ok_classes[0].__name__),
                           'stream %r (%s)' % (sid, w.tag(sid)))
 
@@ -137,6 +148,8 @@ def run_case(data):
         if cls == 'idle' and name not in ('send_headers',):
             if not m.seen_headers:
                 return None      # nothing has happened on the connection yet: any ProtocolError
+            if sid <= lib_hi[sid % 2]:
+                return None      # a call the model did not follow has used a higher id of this parity since
             return (h2.exceptions.NoSuchStreamError,)
         return None
 
@@ -149,7 +162,7 @@ def run_case(data):
         op = ch.weighted([(7, 'send_headers'), (6, 'send_data'), (3, 'end_stream'), (3, 'increment'), (3, 'push'),
                           (2, 'ping'), (4, 'reset'), (1, 'close'), (2, 'settings'), (2, 'altsvc'), (2, 'prioritize'),
                           (2, 'window-query'), (3, 'ack'), (1, 'data_to_send'), (1, 'next-id'), (5, 'cleanup'),
-                          (7, 'peer-open'), (6, 'peer-close'), (2, 'peer-response')])
+                          (7, 'peer-open'), (6, 'peer-close'), (2, 'peer-response'), (2, 'peer-window')])
         sid = pick_sid()
         if op == 'send_headers':
             lname, hdrs = ch.pick(HEADER_LISTS)
@@ -172,6 +185,8 @@ def run_case(data):
                 verdict, what = M.DONTCARE, 'unmodelled'
             o = s.call('send_headers', sid, hdrs, end_stream=es, **kw)
             r.step('send_headers', sid, lname, es, kw, o.brief())
+            if o.ok:
+                note_used(sid)
             if o.ok and verdict == M.PERMIT:
                 m.apply_send_headers(sid, what, es)
             elif o.ok or verdict == M.PERMIT:
@@ -182,7 +197,7 @@ def run_case(data):
             check('send_headers', sid, o, stream_expectation(sid, 'send_headers')
                   if (not kw and lname in ('req', 'resp', 'trailers', 'str')) else None)
         elif op == 'send_data':
-            n = ch.weighted([(5, ch.int(0, 100)), (1, 16384), (1, 16385), (1, 65535), (1, 70000)])
+            n = ch.weighted([(5, ch.int(0, 100)), (1, 16384), (1, 16385), (1, 65535), (1, 70000), (2, 0)])
             pad = ch.pick([None, None, 0, 255, 256, -1])
             es = ch.chance(64)
             verdict, what = m.send_data_verdict(sid, es) if sid <= TOP and sid not in unknown else (M.DONTCARE, '')
@@ -227,6 +242,8 @@ def run_case(data):
             verdict, what = m.push_verdict(sid, promised) if sid <= TOP and sid not in unknown else (M.DONTCARE, '')
             o = s.call('push_stream', sid, promised, hdrs)
             r.step('push_stream', sid, promised, lname, o.brief())
+            if o.ok:
+                note_used(promised)
             if o.ok and verdict == M.PERMIT and lname in ('req', 'str'):
                 m.apply_push(sid, promised)
             elif o.ok:
@@ -240,6 +257,16 @@ def run_case(data):
                 not client and m.peer_enable_push and promised == w.next_local_id() <= TOP and lname in ('req', 'str')
                 and sid % 2 == 1) else None
             check('push_stream', sid, o, exp)
+        elif op == 'peer-window':
+            # the peer changes INITIAL_WINDOW_SIZE: send windows may become zero or negative, which only ever
+            # turns sends into FlowControlError
+            if m.closed:
+                continue
+            v = ch.pick([0, 1, 100, 65535, 20])
+            o = s.feed(wire.settings([(wire.S_INITIAL_WINDOW_SIZE, v)]))
+            r.step('recv SETTINGS INITIAL_WINDOW_SIZE', v, o.brief())
+            if not o.ok:
+                w.stop = True
         elif op == 'ping':
             p = ch.bytes(ch.pick([8, 8, 0, 7, 9]))
             o = s.call('ping', p)
